@@ -6,16 +6,16 @@ Small-step semantics of one write (`put_object`, `upload_part`, `complete_multip
 disk state, with a fault after any step; and of `n` writers to one key under any interleaving.
 
 The steps mirror the code (current tree, i.e. after 3229285 — checksums are compared *before* `done()` —,
-b01fec8 — a put without metadata removes the previous object's metadata file — and 0096ef4 —
+b01fec8 — a put without metadata removes the previous object's metadata file —, 0096ef4 —
 `complete_multipart_upload` validates first, assembles and renames, and only then moves the metadata, removes the part
-files and the upload record):
+files and the upload record — and 2ee4116 — the temporary file is created by a plain `std::fs::File::create` in the same
+poll in which the `FileWriter` is constructed):
 
 | step        | code                                                                                   |
 |-------------|----------------------------------------------------------------------------------------|
 | `probe p`   | `complete_multipart_upload`, validation loop: `fs::metadata(part file)` — missing → `InvalidPart`; nothing is changed |
 | `sizes ok`  | `complete_multipart_upload`: the size rule over the listed parts (`EntityTooSmall`); nothing is changed   |
-| `create`    | `prepare_file_write`: `tmp_file_counter.fetch_add(1)`, `File::create(tmp).await` — the file exists on disk when the blocking task ran |
-| `adopt`     | the `await` returns and `FileWriter { clean_tmp: true }` is constructed — only from here on does `Drop` remove the temporary file |
+| `create`    | `prepare_file_write` (2ee4116: no longer `async`): `tmp_file_counter.fetch_add(1)`, `std::fs::File::create(tmp)`, `FileWriter { clean_tmp: true }` constructed — no `await` in between, hence no point at which the request future can be dropped: the file never exists without the guard whose `Drop` removes it. (Before, `tokio::fs::File::create(tmp).await` ran on the blocking pool and the `FileWriter` was constructed only after the await returned — a separate step `adopt`; a future dropped in between left the file: `tmp-leftover:drop-at-create`.) |
 | `frame f`   | `copy_bytes`: one item of the body stream; `Err` ends the call; `Ok` is appended          |
 | `part p`    | `complete_multipart_upload`, after the validation: open the part file (missing → error), `tokio::io::copy` into the temporary file |
 | `flush`     | `writer.flush()`                                                                       |
@@ -29,7 +29,10 @@ files and the upload record):
 | `saveInfo`  | `save_internal_info` (`fs::write`, after the rename; `complete_multipart_upload`: an empty record, since 47e9b00) |
 
 An error return and a dropped future both run `Drop for FileWriter`: the temporary file is removed iff a
-`FileWriter` with `clean_tmp = true` exists (`owned`).
+`FileWriter` with `clean_tmp = true` exists (`owned`). A future can only be dropped between two polls, i.e. at an `await`
+that returned `Pending`: the fault positions of the model are the boundaries between steps, and every step ends at an
+`await` of the code or — `create`, `check`, `sizes` — runs synchronously into the next one (a position the code cannot
+be dropped at is a harmless extra: the theorems hold there too).
 -/
 namespace S3V.FsWrite
 open S3V
@@ -97,7 +100,6 @@ inductive Step where
   | consume
   | dropPart
   | create
-  | adopt
   | frame (f : Frame)
   | part (p : Part)
   | flush
@@ -115,8 +117,7 @@ def exec (s : St) : Step → Except (Code × St) St
   | .sizes ok => if ok then .ok s else .error (.entityTooSmall, s)
   | .consume => .ok { s with uploadRec := false }
   | .dropPart => .ok { s with partsGone := s.partsGone + 1 }
-  | .create => .ok { s with tmp := true }
-  | .adopt => .ok { s with owned := true }
+  | .create => .ok { s with tmp := true, owned := true }
   | .frame (.ok b) => .ok { s with acc := s.acc ++ b, pulled := s.pulled + 1 }
   | .frame .err => .error (.internalError, { s with pulled := s.pulled + 1 })
   | .part (.present b _) => .ok { s with acc := s.acc ++ b }
@@ -173,11 +174,11 @@ structure Cfg where
   infoFails : Bool := false
 
 def putObjectProg (c : Cfg) : List Step :=
-  [.create, .adopt] ++ c.frames.map .frame ++ [.flush, .check c.checksumsEqual, .mkdirs c.mkdirsFails, .rename c.renameFails] ++
+  [.create] ++ c.frames.map .frame ++ [.flush, .check c.checksumsEqual, .mkdirs c.mkdirsFails, .rename c.renameFails] ++
     (if c.hasMeta then [.saveMeta c.metaFails] else [.dropMeta c.metaFails]) ++ [.saveInfo c.infoFails]
 
 def uploadPartProg (c : Cfg) : List Step :=
-  [.create, .adopt] ++ c.frames.map .frame ++ [.flush, .mkdirs c.mkdirsFails, .rename c.renameFails]
+  [.create] ++ c.frames.map .frame ++ [.flush, .mkdirs c.mkdirsFails, .rename c.renameFails]
 
 /-- what follows the rename in `complete_multipart_upload`: the metadata (the upload's, or none), the checksum record, the
     part files, the upload record -/
@@ -186,7 +187,7 @@ def completePost (c : Cfg) : List Step :=
     (c.parts.map fun _ => Step.dropPart) ++ [.consume]
 
 def completeProg (c : Cfg) : List Step :=
-  c.parts.map .probe ++ .sizes (c.parts.all Part.fine) :: .create :: .adopt ::
+  c.parts.map .probe ++ .sizes (c.parts.all Part.fine) :: .create ::
     (c.parts.map .part ++ .mkdirs c.mkdirsFails :: .rename c.renameFails :: completePost c)
 
 /-- all body bytes, if no item is an error -/
